@@ -97,6 +97,18 @@ Theorem C10_constructed_channel_opens : forall F c rc,
 Proof. exact constructed_channel_opens. Qed.
 Print Assumptions C10_constructed_channel_opens.
 
+(* ---- T21: "an error is reported" includes the recorder written as `with DigitalRFWriter(...) as w:`: the exception a
+   call raises inside the block leaves the with statement -- __exit__, regenerated from digital_rf_hdf5.py, returns a
+   false value whether or not the writer is still open, and closes the writer on the way *)
+From DRF Require Import Gen.CtxMgrGen Proofs.CtxMgrGenProofs.
+Theorem C10_with_statement_never_swallows_the_failure : forall open exc, snd (gen_exit open exc) = false.
+Proof. exact exit_never_swallows. Qed.
+Print Assumptions C10_with_statement_never_swallows_the_failure.
+
+Theorem C10_with_statement_closes_the_writer : forall open exc, fst (gen_exit open exc) = gen_close_actions open.
+Proof. exact exit_closes_on_every_path. Qed.
+Print Assumptions C10_with_statement_closes_the_writer.
+
 (* ---- T17: the sources this property rests on keep no state outside the objects the model has (no static locals
    or mutable globals in C, no class-level / module-level containers, `global` rebinding or cache decorators in
    Python): the list of such sites, regenerated from the sources on every run, is empty *)
